@@ -48,6 +48,9 @@ CHECKS = {
  "C13": ("runtime metamorphic monitor: Canon on a graph and on its relabelings (node renumbering, edge/error shuffles) must agree or both fail; idempotence and conservation of nodes, errors, edges; a defined small space enumerated completely plus random graphs",
          "Enumerates a precisely defined sub-space of small rooted graphs (all labelings over {a@1,a@2}, edge sets, optional parallel edge and node error, all (n-1)! relabelings) completely (exhaustive: true, size cross-checked against a closed formula) and 20 relabelings each of random graphs up to 40 nodes.",
          "Fresh graphs are built for every Canon call; conservation fingerprints are computed by the harness from its own description of the input.", "§6 C13"),
+ "C08": ("runtime invariant monitor on every error-free graph returned by the PyPI resolver over generated universes: one version per package, every true-by-construction requirement represented by an edge to a version satisfying its specifier (packaging SpecifierSet) under pip's prerelease rule, false markers contribute nothing, reachability, root not replaced",
+         "Exploration: every version of every generated universe (all operators, prereleases, markers with truth known by construction and verified by probing the library, extras, cycles through the root, conflicts forcing backtracking) is resolved through a step-budgeted client; P1-P5 are evaluated on the returned graph; violating universes are shrunk.",
+         "packaging 21.3 answers specifier questions (batched); three recorded divergences (interval matching of '<V' / '!=V.*' against V's own prereleases, stale extras of abandoned candidates) are identified by class predicates with witnesses.", "§6 C08"),
 }
 NOT_YET = {}
 
